@@ -106,3 +106,56 @@ def check_shuffle_is_permutation(xs: List[int], picks: List[int], bs: int) -> bo
     finally:
         S.random = old
     return len(got) == len(xs) and all(got.count(v) == xs.count(v) for v in (0, 1, 2))
+
+
+def _raised(e):
+    """The same exception object after it has really been raised (it now carries a traceback)."""
+    try:
+        raise e
+    except BaseException as x:
+        return x
+
+
+def _peek_unchanged(codes, raisedmask, interval, exc_on, tb_on, then_filter):
+    # peek = "print some info under certain conditions before returning the input value unchanged": whatever is printed,
+    # for plain values, exception objects that were never raised and exception objects that were raised (traceback)
+    codes = [conc(c, 0, 3) for c in codes]
+    raisedmask, interval = conc(raisedmask, 0, 3), conc(interval, 1, 2)
+    exc_on, tb_on = conc(exc_on, 0, 1), conc(tb_on, 0, 1)
+    fresh = [1, ValueError('a'), KeyError('b'), TypeError('c')]
+    xs = []
+    for k, c in enumerate(codes):
+        x = fresh[c]
+        if c and (raisedmask >> k) & 1:
+            x = _raised(type(x)(*x.args))
+        xs.append(x)
+    printed = []
+    s = Stream(xs).peek(print_func=printed.append, interval=[None, 1, 2][interval],
+                        exc_types=BaseException if exc_on else None, with_exc_tb=bool(tb_on))
+    if then_filter:
+        got = s.filter_exceptions(BaseException).collect()
+        want = [x for x in xs if not isinstance(x, BaseException)]
+    else:
+        got = s.collect()
+        want = xs
+    return len(got) == len(want) and all(a is b for a, b in zip(got, want))
+
+
+def check_peek_returns_every_element_unchanged(codes: List[int], raisedmask: int, interval: int, exc_on: int, tb_on: int) -> bool:
+    """
+    pre: len(codes) <= 2 and all(0 <= c <= 3 for c in codes)
+    pre: 0 <= raisedmask <= 3 and 1 <= interval <= 2 and 0 <= exc_on <= 1 and 0 <= tb_on <= 1
+    twin-pre: len(codes) >= 2 and codes[0] == 1
+    post: _
+    """
+    return _peek_unchanged(codes, raisedmask, interval, exc_on, tb_on, 0)
+
+
+def check_peek_then_filter_exceptions(codes: List[int], raisedmask: int, interval: int, exc_on: int, tb_on: int) -> bool:
+    """
+    pre: len(codes) <= 2 and all(0 <= c <= 3 for c in codes)
+    pre: 0 <= raisedmask <= 3 and 1 <= interval <= 2 and 0 <= exc_on <= 1 and 0 <= tb_on <= 1
+    twin-pre: len(codes) >= 2 and codes[0] == 0
+    post: _
+    """
+    return _peek_unchanged(codes, raisedmask, interval, exc_on, tb_on, 1)
